@@ -13,7 +13,17 @@ use crate::props::c16;
 use crate::report::{Acc, Check, Tier};
 use crate::util::{guard, Guard};
 
-const TS: [&str; 4] = ["2020-08-19T08:38:00Z", "2020-08-19T08:38:00+05:30", "2020-08-19T08:38:00.5Z", "1985-04-12T23:20:50.52-08:00"];
+const TS: [&str; 9] = [
+    "2020-08-19T08:38:00Z",
+    "2020-08-19T08:38:00+05:30",
+    "2020-08-19T08:38:00.5Z",
+    "1985-04-12T23:20:50.52-08:00",
+    "2020-08-19T08:38:00.123Z",
+    "2020-08-19T08:38:00.123456Z",
+    "2020-08-19T08:38:00.123456789Z",
+    "2020-08-19T08:38:00.000000001+00:00",
+    "1969-12-31T23:59:59.999999-00:01",
+];
 
 fn subsets(n: usize) -> Vec<Vec<bool>> {
     (0..(1u32 << n)).map(|m| (0..n).map(|i| m & (1 << i) != 0).collect()).collect()
@@ -264,6 +274,12 @@ fn check_predicate(acc: &mut Acc, name: &str, doc: &Value) {
     if let Guard::Done(Ok(w)) = guard(|| PredicateWrapper::try_from_value(doc.clone())) {
         acc.accepting += 1;
         let ver = wrapper_version(&w);
+        // the format a value reports about itself is the one it was recognised as
+        match guard(|| ver_index(w.clone().into_trait().version())) {
+            Guard::Done(v) if v == ver && judged == Some(ver) => {}
+            Guard::Done(v) => acc.violation("reported-version-differs", &format!("an accepted {} predicate reports version {} (version-detecting parser: {judged:?})", ["Link v0.2", "SLSA v0.1", "SLSA v0.2"][ver], ["Link v0.2", "SLSA v0.1", "SLSA v0.2"][v]), witness),
+            Guard::Panicked(l, m) => acc.violation(&format!("panic:{l}"), &m, witness),
+        }
         let bytes = match guard(|| w.clone().into_trait().to_bytes()) {
             Guard::Done(Ok(b)) => b,
             _ => {
@@ -328,6 +344,22 @@ fn check_statement(acc: &mut Acc, name: &str, doc: &Value, declared: Option<usiz
     }
     let Guard::Done(Ok(w)) = guard(|| StatementWrapper::try_from_value(doc.clone())) else { return };
     acc.accepting += 1;
+    // the format a statement reports about itself is the one it was recognised as
+    {
+        let variant = match &w {
+            StatementWrapper::Naive(_) => StatementVer::Naive,
+            StatementWrapper::V0_1(_) => StatementVer::V0_1,
+        };
+        let copy = match &w {
+            StatementWrapper::Naive(s) => StatementWrapper::Naive(s.clone()),
+            StatementWrapper::V0_1(s) => StatementWrapper::V0_1(s.clone()),
+        };
+        match guard(|| copy.into_trait().version()) {
+            Guard::Done(v) if v == variant && judged == Some(variant) => {}
+            Guard::Done(v) => acc.violation("reported-version-differs", &format!("an accepted {variant} statement reports version {v} (version-detecting parser: {:?})", judged.map(|j| j.to_string())), witness),
+            Guard::Panicked(l, m) => acc.violation(&format!("panic:{l}"), &m, witness),
+        }
+    }
     // declared predicate type names the contained format
     if let (StatementWrapper::V0_1(_), Some(d)) = (&w, declared) {
         if Some(d) != contained {
@@ -413,6 +445,42 @@ fn check_from_meta_formats(acc: &mut Acc) {
     }
 }
 
+/// The link as JSON, built from its fields with the harness's own spelling of paths, algorithm
+/// names and digests (not with the library's serialisers).
+fn independent_link_json(l: &in_toto::models::LinkMetadata) -> Value {
+    let arts = |m: &std::collections::BTreeMap<in_toto::models::VirtualTargetPath, in_toto::models::TargetDescription>| -> Value {
+        let mut o = Map::new();
+        for (p, d) in m {
+            let mut dm = Map::new();
+            for (a, h) in d {
+                let an = match a {
+                    in_toto::crypto::HashAlgorithm::Sha256 => "sha256".to_string(),
+                    in_toto::crypto::HashAlgorithm::Sha512 => "sha512".to_string(),
+                    in_toto::crypto::HashAlgorithm::Unknown(name) => name.clone(),
+                };
+                dm.insert(an, json!(crate::util::hex(h.value())));
+            }
+            o.insert(p.value().to_string(), Value::Object(dm));
+        }
+        Value::Object(o)
+    };
+    let mut by = Map::new();
+    if let Some(r) = l.byproducts.return_value() {
+        by.insert("return-value".into(), json!(r));
+    }
+    if let Some(s) = l.byproducts.stdout() {
+        by.insert("stdout".into(), json!(s));
+    }
+    if let Some(s) = l.byproducts.stderr() {
+        by.insert("stderr".into(), json!(s));
+    }
+    for (k, v) in l.byproducts.other_fields() {
+        by.insert(k.clone(), json!(v));
+    }
+    let cmd: &[String] = l.command.as_ref();
+    json!({"name": l.name, "materials": arts(&l.materials), "products": arts(&l.products), "command": cmd, "byproducts": Value::Object(by), "env": l.env})
+}
+
 fn check_from_meta(acc: &mut Acc) {
     for (n, l) in c16::links(false) {
         if n.contains("other-field-named") {
@@ -420,6 +488,7 @@ fn check_from_meta(acc: &mut Acc) {
         }
         acc.evaluations += 2;
         let lv = serde_json::to_value(&l).unwrap();
+        let iv = independent_link_json(&l);
         // naive
         match guard(|| StatementWrapper::from_meta(l.clone(), None, StatementVer::Naive)) {
             Guard::Done(StatementWrapper::Naive(s)) => {
@@ -428,6 +497,11 @@ fn check_from_meta(acc: &mut Acc) {
                     continue;
                 };
                 let same = sv["name"] == lv["name"] && sv["materials"] == lv["materials"] && sv["products"] == lv["products"] && sv["command"] == lv["command"] && sv["byproducts"] == lv["byproducts"] && sv["env"] == lv["environment"];
+                // and against the fields themselves, spelled by the harness
+                let same_independent = ["name", "materials", "products", "command", "byproducts", "env"].iter().all(|m| sv[*m] == iv[*m]);
+                if same && !same_independent {
+                    acc.violation("from-meta-changes-link:naive:against-fields", "a naive statement built from link metadata differs from the link's fields (the link's own JSON form differs in the same way)", || json!({"kind": "from_meta", "link": n, "statement": sv, "fields": iv}));
+                }
                 if !same {
                     acc.violation("from-meta-changes-link:naive", "a naive statement built from link metadata does not carry the link's members over unchanged", || json!({"kind": "from_meta", "link": n, "statement": sv, "link_json": lv}));
                 } else {
@@ -446,7 +520,7 @@ fn check_from_meta(acc: &mut Acc) {
                     acc.violation("canonical-form-not-json", "the canonical form of a statement built from link metadata is not valid JSON", || json!({"kind": "from_meta", "link": n}));
                     continue;
                 };
-                if sv["subject"] != lv["products"] || sv["predicate"] != pv || sv["predicateType"] != PRED_TYPES[0] {
+                if sv["subject"] != lv["products"] || sv["subject"] != iv["products"] || sv["predicate"] != pv || sv["predicateType"] != PRED_TYPES[0] {
                     acc.violation("from-meta-changes-link:v01", "a v0.1 statement built from link metadata does not carry products as subject / the predicate unchanged", || json!({"kind": "from_meta", "link": n, "statement": sv}));
                 } else {
                     acc.outcome("from-meta:v01-ok");
@@ -487,6 +561,23 @@ pub fn run(tier: Tier) -> i32 {
         check_statement(&mut acc, n, d, Some(*declared), *contained);
         acc.nontrivial += 1;
     }
+    // the statement's own `_type` member: every listed spelling on both statement shapes (whatever
+    // is accepted must still be exactly one format, report it, and survive the round trip unchanged)
+    let own_types = ["link", "https://in-toto.io/Statement/v0.1", "https://in-toto.io/Statement/v1", "layout", "garbage", ""];
+    for (n, d) in naive_docs().into_iter().step_by(if tier.thorough() { 1 } else { 4 }) {
+        for t in own_types {
+            let mut d2 = d.clone();
+            d2["_type"] = json!(t);
+            check_statement(&mut acc, &format!("{n}/_type={t:?}"), &d2, None, None);
+        }
+    }
+    for (n, d, declared, contained) in stmts.iter().step_by(if tier.thorough() { 2 } else { 7 }) {
+        for t in own_types {
+            let mut d2 = d.clone();
+            d2["_type"] = json!(t);
+            check_statement(&mut acc, &format!("{n}/_type={t:?}"), &d2, Some(*declared), *contained);
+        }
+    }
     for (n, d, declared, contained) in stmts.iter().step_by(if tier.thorough() { 3 } else { 19 }) {
         for (m, d2) in inject_foreign(d) {
             if m.starts_with("+predicateType") || m.starts_with("+predicate=") {
@@ -502,7 +593,7 @@ pub fn run(tier: Tier) -> i32 {
     // observation: StatementWrapper's derived Serialize is externally tagged and is not what its Deserialize reads
     c.extra.insert("observation_wrapper_derive_serialize".into(), json!("StatementWrapper derives an externally tagged Serialize ({\"V0_1\":{..}}) that its own Deserialize does not accept; the canonical form judged here is StateLayout::to_bytes"));
     c.acc = acc;
-    c.rule = "predicates: Link v0.2 (4 env x 4 byproducts x 3 materials x 2 commands), SLSA v0.1 (all 16 recipe subsets, all 32 metadata subsets x 4 timestamp spellings, all 27 completeness settings (absent/true/false per member), 5 material lists, all 8 top-level subsets), SLSA v0.2 (all invocation/configSource subsets, metadata, 16 top-level subsets); statements: naive, and v0.1 with each of 4 declared types x predicates of every format x 2 subjects; every member name of every format injected one at a time with 3 values; from_meta over C16's link family. distinct_nontrivial = base documents".into();
+    c.rule = "predicates: Link v0.2 (4 env x 4 byproducts x 3 materials x 2 commands), SLSA v0.1 (all 16 recipe subsets, all 32 metadata subsets x 9 timestamp spellings (0..9 fractional digits), all 27 completeness settings (absent/true/false per member), 5 material lists, all 8 top-level subsets), SLSA v0.2 (all invocation/configSource subsets, metadata, 16 top-level subsets); statements: naive, and v0.1 with each of 4 declared types x predicates of every format x 2 subjects; every member name of every format injected one at a time with 3 values; 6 spellings of the statement's own _type on both statement shapes; the version every accepted value reports about itself; from_meta over C16's link family (incl. non-normalised paths), compared with the link's JSON form and with its fields spelled by the harness. distinct_nontrivial = base documents".into();
     c.bound_completed = format!("exhaustive per sub-structure, pairwise across; foreign-member injection on every {}th predicate", stride);
     c.assume("typed per-version parsers reached through hook H2 re-exports; canonical form = StateLayout/PredicateLayout::to_bytes");
     c.finish()
